@@ -399,14 +399,14 @@ theorem lookaheadLoop_conserve (D : List Dialect) (cap : Nat) (stop : Bool) (la 
       run (lookaheadLoop D cap stop la fuel acc) c = (.ok (m, read), c') → Conserve c acc c' read := by
   intro fuel
   induction fuel with
-  | zero => intro acc c m read c' h; rw [lookaheadLoop, run_throw] at h; cases h
+  | zero => intro acc c m read c' h; rw [lookaheadLoop, prun_throw] at h; cases h
   | succ n ih =>
     intro acc c m read c' h
-    rw [lookaheadLoop, run_bind] at h
+    rw [lookaheadLoop, prun_bind] at h
     obtain ⟨t, c1, hr0, hread⟩ := readToken_cases c
     rw [hr0] at h
     dsimp only at h
-    rw [run_bind] at h
+    rw [prun_bind] at h
     rcases hr1 : run (matchAny D cap stop la.expected t) c1 with ⟨r1, c2⟩
     rw [hr1] at h
     cases r1 with
@@ -417,9 +417,9 @@ theorem lookaheadLoop_conserve (D : List Dialect) (cap : Nat) (stop : Bool) (la 
       have ht1 := (matchAny_tok D cap stop _ _ _ _ _ hr1).2
       dsimp only at h ht1
       split at h
-      · rw [run_pure] at h; cases h
+      · rw [prun_pure] at h; cases h
         exact conserve_base c c1 _ t t1 acc hread hs1 ht1
-      · rw [run_bind] at h
+      · rw [prun_bind] at h
         rcases hr2 : run (matchAny D cap stop la.skip t1) c2 with ⟨r2, c3⟩
         rw [hr2] at h
         cases r2 with
@@ -431,7 +431,7 @@ theorem lookaheadLoop_conserve (D : List Dialect) (cap : Nat) (stop : Bool) (la 
           dsimp only at h ht2
           split at h
           · exact conserve_step c c1 c3 c' t t2 acc read hread hs2 ht2 (ih _ _ _ _ _ h)
-          · rw [run_pure] at h; cases h
+          · rw [prun_pure] at h; cases h
             exact conserve_base c c1 _ t t2 acc hread hs2 ht2
 
 theorem lookahead_conserves (D : List Dialect) (cap : Nat) (stop : Bool) (la : LookAhead) (ctx : Ctx) (b : Bool) (ctx' : Ctx)
@@ -444,9 +444,9 @@ theorem lookahead_conserves (D : List Dialect) (cap : Nat) (stop : Bool) (la : L
   have hg := (lookahead_foot D cap stop la _ _ _ h).ghost
   refine ⟨?_, ?_, ?_, hg.1, hg.2.1⟩
   all_goals
-    rw [lookahead, run_bind, run_get] at h
+    rw [lookahead, prun_bind, run_get] at h
     dsimp only at h
-    rw [run_bind] at h
+    rw [prun_bind] at h
     rcases hr : run (lookaheadLoop D cap stop la (ctx.queue.length + ctx.lines.length + 2) []) ctx with ⟨r, c1⟩
     rw [hr] at h
     cases r with
@@ -454,9 +454,9 @@ theorem lookahead_conserves (D : List Dialect) (cap : Nat) (stop : Bool) (la : L
     | ok r =>
       obtain ⟨m, read⟩ := r
       dsimp only at h
-      rw [run_bind, run_modify] at h
+      rw [prun_bind, run_modify] at h
       dsimp only at h
-      rw [run_pure] at h
+      rw [prun_pure] at h
       cases h
       obtain ⟨hp, hl, hle⟩ := lookaheadLoop_conserve D cap stop la _ _ _ _ _ _ hr
       dsimp only
